@@ -27,7 +27,7 @@ import (
 )
 
 func init() {
-	pbt.Describe("schedules: the real sumdb.Server over sumdb.NewTestServer is called in-process (ServeHTTP with a recorder; path escaping and record formatting are part of what is checked) and grows as lookups create records, so different goroutines see heads of different sizes; 1-3 clients share one configuration/cache store; 2-5 goroutines per client perform 1-3 lookups each over <= 6 modules including upper-case paths, /go.mod versions, repeated keys and paths matching a generated GONOSUMDB list; tile height in {1,2,3}. Every ClientOps call and every hook yield point (merge:read, merge:install, merge:flush, record:read) parks on a harness-owned scheduler which, whenever no operation runs and no new request has arrived for a grace period, releases one pending request chosen by generated data from the pending set ordered by identity (client, operation, argument, occurrence); operations are thus totally ordered by the generated schedule, and the decision list is the replayable history. Oracle: every lookup succeeds with exactly the server's lines for that module/version; per client at most one ReadCache and one ReadRemote per lookup file; stored head sizes never decrease and the final stored head is the largest head any response carried; a private path returns ErrGONOSUMDB without any external operation. race: the same workload without the scheduler, many goroutines, built with -race (a race report fails the run). Non-trivial: at least two requests were pending at some decision and the history contains either two different head sizes in flight or a lookup key shared by two goroutines of one client. Distinct by the recorded history. 4% of the cases start from a log just below 1000*2^H records, so that the run's own records fill tile number 1000 (the first path with an x001 element).",
+	pbt.Describe("schedules: the real sumdb.Server over sumdb.NewTestServer is called in-process (ServeHTTP with a recorder; path escaping and record formatting are part of what is checked) and grows as lookups create records, so different goroutines see heads of different sizes; 1-3 clients share one configuration/cache store; 2-5 goroutines per client perform 1-3 lookups each over <= 6 modules including upper-case paths, /go.mod versions, repeated keys and paths matching a generated GONOSUMDB list; tile height in {1,2,3}. Every ClientOps call and every hook yield point (merge:read, merge:install, merge:flush, record:read) parks on a harness-owned scheduler which, whenever no operation runs and no new request has arrived for a grace period, releases one pending request chosen by generated data from the pending set ordered by identity (client, operation, argument, occurrence); operations are thus totally ordered by the generated schedule, and the decision list is the replayable history. Oracle: every lookup succeeds with exactly the server's lines for that module/version; per client at most one ReadCache and one ReadRemote per lookup file; stored head sizes never decrease and the final stored head is the largest head any response carried; a private path returns ErrGONOSUMDB without any external operation. race: the same workload without the scheduler, many goroutines, built with -race (a race report fails the run). Non-trivial: at least two requests were pending at some decision and the history contains either two different head sizes in flight or a lookup key shared by two goroutines of one client. Distinct by the recorded history. 4% of the cases start from a log just below 1000*2^H records, so that the run's own records fill tile number 1000 (the first path with an x001 element). 4% of the cases are bursts of 12-40 goroutines on one client with one lookup of a distinct record each. A deadlock is recognised by observation (no operation pending or running, workers not finished, every goroutine with a sumdb frame on its stack parked on a channel, mutex, condition or wait group in two samples a second apart) and reported as lookups-deadlocked with the schedule.",
 		"only interleavings at external operations and the four yield points are controlled, and they are sampled, not enumerated", "late goroutines can make the explorer choose from an incomplete pending set: any schedule produced is legal, so this costs coverage and bit-reproducibility of exploration, never soundness; replay releases requests strictly in the recorded identity order",
 		"liveness beyond 'the run ended' is not checked; a run that makes no progress for 20 s is reported as a hang")
 }
@@ -268,10 +268,17 @@ func genCase(t *rapid.T) *c14Case {
 		c.Prewarm = 1000<<uint(c.H) - rapid.IntRange(0, 6).Draw(t, "largeshort")
 	}
 	nc := []int{1, 1, 2, 2, 3}[gen.Uniform(t, 5, "nclients")]
+	burst := gen.Chance(t, 4, "burst") // "any number of goroutines": one client, 12 to 40 of them, one lookup each
+	if burst {
+		nc = 1
+	}
 	for ci := 0; ci < nc; ci++ {
 		ng := rapid.IntRange(2, 5).Draw(t, "ngor")
 		if nc > 1 {
 			ng = rapid.IntRange(1, 3).Draw(t, "ngor2")
+		}
+		if burst {
+			ng = []int{12, 16, 17, 24, 33, 40}[gen.Uniform(t, 6, "burstn")]
 		}
 		var gs [][]lookup
 		privateOnly := c.Patterns != "" && gen.Chance(t, 15, "privateclient")
@@ -285,11 +292,21 @@ func genCase(t *rapid.T) *c14Case {
 				}
 				ls = append(ls, l)
 			}
+			if burst {
+				// one lookup per goroutine, mostly of distinct records (so that nothing is shared or cached between them)
+				ls = ls[:1]
+				if gen.Chance(t, 85, "burstdistinct") {
+					ls[0] = lookup{Mod: g % len(mods), Ver: g / len(mods), GoMod: ls[0].GoMod}
+				}
+			}
 			gs = append(gs, ls)
 		}
 		c.Work = append(c.Work, gs)
 	}
 	c.Choices = gen.Schedule(t, 150, "sched")
+	if burst {
+		c.Choices = append(c.Choices, gen.Schedule(t, 350, "sched2")...)
+	}
 	return c
 }
 
@@ -298,7 +315,7 @@ func okCase(c *c14Case) bool {
 		return false
 	}
 	for _, gs := range c.Work {
-		if len(gs) == 0 || len(gs) > 8 {
+		if len(gs) == 0 || len(gs) > 48 {
 			return false
 		}
 		for _, ls := range gs {
@@ -405,7 +422,11 @@ func runCase(c *c14Case, useSched bool) (*world, []outcome, *sched.Sched) {
 		}
 	}
 	if sch != nil {
+		sch.Workers = "golang.org/x/mod/sumdb."
 		sch.Run(func() bool { return int(done.Load()) == total })
+		if sch.Deadlock {
+			return w, outs, sch // the lookups will never return; their goroutines are abandoned
+		}
 	}
 	wg.Wait()
 	return w, outs, sch
@@ -502,6 +523,19 @@ func check(c *c14Case) pbt.Result {
 		return r
 	}
 	w, outs, sch := runCase(c, true)
+	if sch.Deadlock {
+		nl := 0
+		for _, gs := range c.Work {
+			nl += len(gs)
+		}
+		r.NonTrivial = true
+		r.Fail = pbt.Failf("lookups-deadlocked", "honest server, %d clients, %d goroutines: the lookups never return: %v\nschedule (%d decisions): %v", len(c.Work), nl, sch.Err, len(sch.History), sch.History)
+		if len(c.History) == 0 {
+			c.History = append([]string(nil), sch.History...)
+			c.Choices = nil
+		}
+		return r
+	}
 	if sch.Err != nil {
 		// no progress within the scheduler's limit, or a recorded schedule that this code does not follow:
 		// inconclusive (liveness is not part of the property; a schedule recorded on other code may not exist here)
